@@ -62,6 +62,8 @@ class Adapter(EnvAdapter):
                 c("g10a3f3_fov3_grid", 10, 3, 3, 3, 100, 3, 70, grid=True, probe_every=7, probe_cap=30,
                   policies=["forage", "crowd"]),
                 c("g8a2f2_grid_t7", 8, 2, 2, 8, 7, 2, 10, grid=True, pen=0.5, probe_cap=10),
+                # the penalty given as a Python int: rewards must stay float32
+                c("g5a2f1_t3_penint", 5, 2, 1, 2, 3, 3, 6, coop=False, pen=1, norm=False, probe_cap=12),
                 inj("inj3_vec", 40, grid=False),
                 inj("inj3_grid", 20, grid=True, pen=0.5),
             ]
